@@ -135,3 +135,11 @@ class K2:          # cacheable environment probe
 
     def run(self):
         return dict(pid=os.getpid(), context=dict(self.context))
+
+
+@labtech.task
+class Selfie:          # its result contains a task object (itself), which the pickle cache stores
+    name: str
+
+    def run(self):
+        return {'me': self, 'name': self.name}
